@@ -1,4 +1,5 @@
 mod engine;
+mod families;
 mod fault;
 mod integer;
 mod replay;
@@ -18,6 +19,17 @@ fn main() {
     let mut out = BufWriter::new(f);
     match family {
         "integer" => integer::run(&mut out, seed, thorough),
+        "vamm" | "feed" | "auth" | "c14" | "faults" | "twin" => {
+            let n: usize = args.get(5).and_then(|s| s.parse().ok()).unwrap_or(if thorough { 40 } else { 10 });
+            match family {
+                "vamm" => families::run_vamm(&mut out, seed, thorough, n),
+                "feed" => families::run_feed(&mut out, seed, thorough, n),
+                "auth" => families::run_auth(&mut out, seed, thorough, n),
+                "c14" => families::run_c14(&mut out, seed, thorough, n),
+                "faults" => families::run_faults(&mut out, seed, thorough, n),
+                _ => families::run_twin(&mut out, seed, thorough, n),
+            }
+        }
         "replay" => replay::run(&mut out, args.get(5).expect("replay needs an input file")),
         "engine" => {
             let n: usize = args.get(5).and_then(|s| s.parse().ok()).unwrap_or(if thorough { 60 } else { 20 });
